@@ -109,11 +109,12 @@ class Env:
                     changed = True
         return s
 
-    def interp(self, keep, cut=None, models=None, blocked=(), globals_=None, local_enums_of=None):
+    def interp(self, keep, cut=None, models=None, blocked=(), globals_=None, local_enums_of=None, **kw):
         cut = cut or {}
         models = models or {}
         inl = self.inlined(keep, set(blocked) | set(cut) | set(models))
         cfg = {'opaque': self.all - inl, 'cut': cut, 'models': models, 'globals': globals_ or {}, 'track_stores': True}
+        cfg.update(kw)
         it = _LocalEnumInterp(self.P, self.u, cfg)
         if local_enums_of:
             it.local_enums = _local_enums(self.u.fn(local_enums_of))
@@ -373,6 +374,9 @@ STORAGE_SETS = (
 FUNCTION_SPECS = ((), ('inline',), ('_Noreturn',), ('inline', '_Noreturn'))
 QUALIFIERS = ((), ('const',), ('volatile',), ('const', 'volatile'), ('_Atomic',), ('const', '_Atomic'))
 MAX_ORDERS = 10
+C11_6_7_2 = ('void', 'char', 'signed char', 'unsigned char', 'short', 'signed short', 'short int', 'signed short int', 'unsigned short', 'unsigned short int',
+             'int', 'signed', 'signed int', 'unsigned', 'unsigned int', 'long', 'signed long', 'long int', 'signed long int', 'unsigned long', 'unsigned long int',
+             'long long', 'signed long long', 'long long int', 'signed long long int', 'unsigned long long', 'unsigned long long int', 'float', 'double', 'long double', '_Bool')
 
 
 def _orders(ms):
@@ -463,9 +467,9 @@ def r1314_declspec(P, rep, rule='R13.14'):
         res = it.explore('declspec', mk, max_paths=64)
         return rest, res
 
-    def judge(key, ms, with_attr, why_valid, expand=None):
+    def judge(key, ms, with_attr, why_valid, expand=None, fixed_order=False):
         nonlocal nruns
-        for seq in _orders(ms):
+        for seq in ([tuple(ms)] if fixed_order else _orders(ms)):
             if expand:
                 seq = tuple(y for x in seq for y in expand.get(x, (x,)))
             spelled = ' '.join(seq) + ' x;'
@@ -518,6 +522,11 @@ def r1314_declspec(P, rep, rule='R13.14'):
                 name = '+'.join(q + tl)
                 judge('%s:declspec:%s/%s' % (PU, 'declaration' if with_attr else 'no-storage-context', name), q + tl, with_attr,
                       'type qualifiers and _Atomic may accompany any type-specifier list of 6.7.2p2; no storage class is used')
+    # 2b. every type-specifier multiset of 6.7.2p2 (the LP64 type each yields is R08.1), as spelled in the standard and reversed
+    for spelled in C11_6_7_2:
+        ms = tuple(spelled.split())
+        for seq in (ms, tuple(reversed(ms))):
+            judge('%s:declspec:type-specifiers/%s' % (PU, '+'.join(ms)), seq, True, 'C11 6.7.2p2 lists `%s` as a type-specifier multiset' % spelled, fixed_order=True)
     judge('%s:declspec:no-storage-context/register+int' % PU, ('register', 'int'), False, 'register is the one storage-class specifier a parameter may have (6.7.6.3p2)')
     # 3. alignment specifier (6.7.5) in a declaration
     for tl in (('int',), ('char',)):
@@ -646,7 +655,7 @@ def r1315_typing(P, rep, rule='R13.15'):
     rep.rule(rule, 'operands and declarations whose types C11 allows reach no typing diagnostic: additive operators on arithmetic/pointer operands (6.5.6p2, p3), calls with a '
                    'matching number of arguments through a function or a pointer to function (6.5.2.2p1, p2), assignment to every modifiable lvalue type (6.5.16p2), indirection '
                    'through every pointer to object or function (6.5.3.2p2), `&` of a non-bit-field lvalue (6.5.3.2p1), a variable of every complete object type (6.7p7), a reference '
-                   'to a declared enum tag. Decided by interpreting new_add, new_sub, funcall, add_type, unary, declaration and enum_specifier on concrete witness types', floor=100)
+                   'to a declared enum tag. Decided by interpreting new_add, new_sub, funcall, add_type, unary, declaration and enum_specifier on concrete witness types', floor=80)
     env = Env(P)
     u = env.u
     tys = Types(P)
@@ -779,4 +788,178 @@ def r1315_typing(P, rep, rule='R13.15'):
         it = env.interp(('enum_specifier', 'skip', 'consume'), cut={'find_tag': lambda it, ctx, c, a: tys.make('enum')}, models=env.token_models())
         _judge(R, it, '%s:enum_specifier:declared-tag' % PU, 'enum_specifier', lambda ctx: [_Ref(_ValPlace(0)), env.tokens(['E', 'x', ';'])],
                '`enum E x;` where E is a declared enum tag', '6.7.2.3: a declared tag may be referred to')
+    # ---- member access on a struct or union ------------------------------------------------------------------------------------------
+    if u.fn('struct_ref') is None or [(p.type or '').replace(' ', '') for p in u.params('struct_ref')] != ['Node*', 'Token*']:
+        rep.undecided(rule, '%s:struct_ref:anchor' % PU, 'struct_ref(Node *node, Token *tok) vanished')
+    else:
+        it = env.interp(('struct_ref',), cut={'get_struct_member': lambda it, ctx, c, a: Obj('Member', lazy=True, label='member', fields={'name': env.token('m'), 'ty': tys.make('int')})},
+                        models=env.token_models())
+        for t in ('struct', 'union'):
+            _judge(R, it, '%s:struct_ref:%s' % (PU, t), 'struct_ref', lambda ctx, t=t: [_node(env, tys.make(t), 'ND_VAR', 'base'), env.token('m')],
+                   'the member access `x.m` where x is a %s that has a member m' % t, '6.5.2.3p1: the first operand of `.` has a structure or union type')
+    # ---- bit-fields of integer type -----------------------------------------------------------------------------------------------------
+    if u.fn('struct_members') is None or [(p.type or '').replace(' ', '') for p in u.params('struct_members')] != ['Token**', 'Token*', 'Type*']:
+        rep.undecided(rule, '%s:struct_members:anchor' % PU, 'struct_members(Token **rest, Token *tok, Type *ty) vanished')
+    else:
+        for t in ('bool', 'int', 'uint', 'char', 'long', 'enum'):
+            def h_declspec(it, ctx, c, a, t=t):
+                if not a or not isinstance(a[0], _Ref) or not isinstance(a[1], Obj):
+                    raise AnalysisBroken('declspec() is not called with the address of the token cursor')
+                a[0].place.set(it, a[1].fields.get('next'))
+                return tys.make(t)
+
+            def h_declarator(it, ctx, c, a):
+                if not a or not isinstance(a[0], _Ref) or not isinstance(a[1], Obj):
+                    raise AnalysisBroken('declarator() is not called with the address of the token cursor')
+                ty = Obj('Type', lazy=True, label='member-type', fields=dict(a[2].fields))
+                ty.fields.update({'name': a[1], 'name_pos': a[1]})
+                a[0].place.set(it, a[1].fields.get('next'))
+                return ty
+
+            def h_const_expr(it, ctx, c, a):
+                a[0].place.set(it, a[1].fields.get('next'))
+                return 3
+            it = env.interp(('struct_members', 'is_integer', 'skip', 'consume'), cut={'declspec': h_declspec, 'declarator': h_declarator, 'const_expr': h_const_expr}, models=env.token_models())
+            cls = {'bool': '_Bool', 'int': 'signed', 'uint': 'unsigned', 'char': 'signed', 'long': 'signed', 'enum': 'enum'}[t]
+            _judge(R, it, '%s:struct_members:bit-field/%s' % (PU, cls), 'struct_members', lambda ctx: [_Ref(_ValPlace(0)), env.tokens(['int', 'x', ':', '3', ';', '}', ';']), tys.make('struct')],
+                   'the member declaration `T x : 3;` with T = `%s`' % t, '6.7.2.1p5: a bit-field has type _Bool, signed int, unsigned int or another implementation-defined (integer) type')
     R.flush(rep, rule, '%s:%d' % (PU, u.fn('new_add').line if u.fn('new_add') else 1))
+
+
+# ---------------------------------------------------------------------------------------------------------------------------------
+# R13.16 constant expressions that C11 allows are evaluated
+
+ICE_BINARY = ('ND_ADD', 'ND_SUB', 'ND_MUL', 'ND_DIV', 'ND_MOD', 'ND_BITAND', 'ND_BITOR', 'ND_BITXOR', 'ND_SHL', 'ND_SHR', 'ND_EQ', 'ND_NE', 'ND_LT', 'ND_LE', 'ND_LOGAND', 'ND_LOGOR')
+ICE_UNARY = ('ND_NEG', 'ND_NOT', 'ND_BITNOT', 'ND_CAST')
+FLOAT_BINARY = ('ND_ADD', 'ND_SUB', 'ND_MUL', 'ND_DIV')
+FLOAT_COMPARE = ('ND_EQ', 'ND_NE', 'ND_LT', 'ND_LE')
+OPERAND_TYPES = ('int', 'uint', 'long', 'ulong', 'char')
+
+
+def r1316_constexpr(P, rep, rule='R13.16'):
+    rep.rule(rule, 'the constant-expression evaluators answer every operator C11 6.6 allows in a constant expression with a value, not with "not a compile-time constant" / '
+                   '"invalid initializer": the integer operators of 6.6p6 on integer constants of several types (non-zero divisors), `?:`, casts; the arithmetic operators on floating '
+                   'constants (6.6p8); address constants (6.6p9: &object, array and function designators, &object.member, &array[i], address +- integer, casts of these) where a '
+                   'relocation label is accepted; is_const_expr() recognises the integer forms. Decided by interpreting the evaluators (recursive value functions over Node, derived) '
+                   'on concrete witness trees', floor=120)
+    env = Env(P)
+    u = env.u
+    tys = Types(P)
+    E = env.E
+    R = _Results()
+    # the evaluators: recursive functions over Node that return an arithmetic value (derived the way R13.12 derives them), plus the helpers only they call
+    evs = {}
+    for f, fd in u.functions.items():
+        ps = u.params(f)
+        rt = (fd.type or '').split('(')[0].strip()
+        if ps and (ps[0].type or '').replace(' ', '') == 'Node*' and rt not in ('void', 'Node *', 'Type *', 'Obj *', 'Token *') and '*' not in rt:
+            if any(c.callee() == f for c in fd.calls()):
+                evs[f] = (len(ps), rt)
+    # mutual recursion: functions with the same shape that call a recursive one and are called by it
+    for f, fd in u.functions.items():
+        ps = u.params(f)
+        rt = (fd.type or '').split('(')[0].strip()
+        if f not in evs and ps and (ps[0].type or '').replace(' ', '') == 'Node*' and '*' not in rt and rt != 'void':
+            if any(c.callee() in evs for c in fd.calls()) and any(c.callee() == f for g in list(evs) for c in u.functions[g].calls()):
+                evs[f] = (len(ps), rt)
+    where = '%s:%d' % (PU, min((u.fn(f).line for f in evs), default=1))
+    # judged through their entry points: evaluators that some function outside the family calls (the others evaluate sub-forms, e.g. lvalues)
+    entry = set(f for f in evs if env.callers.get(f, set()) - set(evs))
+    ints = sorted(f for f, (n, rt) in evs.items() if f in entry and n == 1 and rt in ('int64_t', 'long', 'long long') )
+    labs = sorted(f for f, (n, rt) in evs.items() if f in entry and n == 2 and rt in ('int64_t', 'long', 'long long') and any((p.type or '').replace(' ', '') == 'char***' for p in u.params(f)[1:]))
+    dbls = sorted(f for f, (n, rt) in evs.items() if f in entry and n == 1 and rt in ('double', 'long double'))
+    preds = sorted(f for f, (n, rt) in evs.items() if f in entry and n == 1 and rt in ('_Bool', 'bool') and f.startswith('is_'))
+    rep.extra['constant_expression_evaluators (derived)'] = {'integer': ints, 'with_label': labs, 'floating': dbls, 'predicates': preds}
+    if not ints or not dbls:
+        rep.undecided(rule, '%s:evaluators:derivation' % PU, 'no recursive integer / floating evaluator over Node was recognised (%s)' % sorted(evs), where=where)
+        return
+    # entry points: an evaluator that is not only called by other evaluators
+    keep = tuple(evs) + ('is_flonum', 'is_integer', 'is_numeric')
+    it = env.interp(keep, models=env.token_models(), rec_limit=10)
+
+    def num(v, t='int'):
+        return _node(env, tys.make(t), 'ND_NUM', 'num', val=v, fval=float(v))
+
+    def tree(kind, t, *kids, **kw):
+        names = ('lhs', 'rhs')
+        f = dict(zip(names, kids))
+        f.update(kw)
+        return _node(env, tys.make(t) if isinstance(t, str) else t, kind, kind, **f)
+    missing = [k for k in ICE_BINARY + ICE_UNARY + ('ND_COND', 'ND_NUM', 'ND_ADDR', 'ND_VAR', 'ND_MEMBER', 'ND_DEREF') if k not in E]
+    if missing:
+        rep.undecided(rule, '%s:evaluators:node-kinds' % PU, 'node kinds %s vanished' % missing, where=where)
+        return
+    gvar = lambda t: Obj('Obj', lazy=True, label='global', fields={'is_local': 0, 'ty': tys.make(t), 'name': 'g', 'is_function': int(t == 'func')})
+    for ev in ints + labs:
+        args = (lambda n: [n]) if ev in ints else (lambda n: [n, 0])
+        for k in ICE_BINARY:
+            for t in OPERAND_TYPES:
+                rt = 'int' if k in ('ND_EQ', 'ND_NE', 'ND_LT', 'ND_LE', 'ND_LOGAND', 'ND_LOGOR') else t
+                _judge(R, it, '%s:%s:%s/%s' % (PU, ev, k, 'unsigned' if t in ('uint', 'ulong') else 'signed'), ev, lambda ctx, k=k, t=t, rt=rt: args(tree(k, rt, num(6, t), num(3, t))),
+                       'the constant expression `6 %s 3` on operands of type %s' % (k[3:], t), '6.6p6: an integer constant expression has integer constants as operands of any arithmetic, bitwise, relational or logical operator')
+        for k in ICE_UNARY:
+            for t in OPERAND_TYPES + (('bool',) if k == 'ND_CAST' else ()):
+                _judge(R, it, '%s:%s:%s/%s' % (PU, ev, k, 'bool' if t == 'bool' else ('unsigned' if t in ('uint', 'ulong') else 'signed')), ev, lambda ctx, k=k, t=t: args(tree(k, 'int' if k == 'ND_NOT' else t, num(6, 'int'))),
+                       'the constant expression `%s 6` of type %s' % (k[3:], t), '6.6p6')
+        for c in (0, 1):
+            _judge(R, it, '%s:%s:ND_COND' % (PU, ev), ev, lambda ctx, c=c: args(tree('ND_COND', 'int', cond=num(c), then=num(6), els=num(3))), 'the constant expression `%d ? 6 : 3`' % c, '6.6p6')
+        _judge(R, it, '%s:%s:ND_NUM' % (PU, ev), ev, lambda ctx: args(num(6)), 'an integer constant', '6.6p6')
+        _judge(R, it, '%s:%s:ND_CAST/floating-operand' % (PU, ev), ev, lambda ctx: args(tree('ND_CAST', 'int', num(6, 'double'))), 'the constant expression `(int)6.0`',
+               '6.6p6: floating constants that are the immediate operands of casts')
+        for k in FLOAT_COMPARE:
+            _judge(R, it, '%s:%s:%s/floating-operands' % (PU, ev, k), ev, lambda ctx, k=k: args(tree(k, 'int', num(6, 'double'), num(3, 'double'))),
+                   'the arithmetic constant expression `6.0 %s 3.0`' % k[3:], '6.6p8: an arithmetic constant expression has arithmetic type and arithmetic constants as operands')
+    for ev in dbls:
+        for k in FLOAT_BINARY:
+            _judge(R, it, '%s:%s:%s' % (PU, ev, k), ev, lambda ctx, k=k: [tree(k, 'double', num(6, 'double'), num(3, 'double'))], 'the arithmetic constant expression `6.0 %s 3.0`' % k[3:], '6.6p8')
+        _judge(R, it, '%s:%s:ND_NEG' % (PU, ev), ev, lambda ctx: [tree('ND_NEG', 'double', num(6, 'double'))], 'the arithmetic constant expression `-6.0`', '6.6p8')
+        _judge(R, it, '%s:%s:ND_NUM' % (PU, ev), ev, lambda ctx: [num(6, 'double')], 'a floating constant', '6.6p8')
+        _judge(R, it, '%s:%s:ND_CAST/integer-operand' % (PU, ev), ev, lambda ctx: [tree('ND_CAST', 'double', num(6, 'int'))], 'the arithmetic constant expression `(double)6`', '6.6p8')
+        _judge(R, it, '%s:%s:ND_CAST/floating-operand' % (PU, ev), ev, lambda ctx: [tree('ND_CAST', 'float', num(6, 'double'))], 'the arithmetic constant expression `(float)6.0`', '6.6p8')
+        _judge(R, it, '%s:%s:integer-subexpression' % (PU, ev), ev, lambda ctx: [tree('ND_ADD', 'double', num(6, 'double'), tree('ND_CAST', 'double', tree('ND_MUL', 'int', num(2), num(3))))],
+               'the arithmetic constant expression `6.0 + (double)(2 * 3)`', '6.6p8')
+        for c in (0, 1):
+            _judge(R, it, '%s:%s:ND_COND' % (PU, ev), ev, lambda ctx, c=c: [tree('ND_COND', 'double', cond=num(c), then=num(6, 'double'), els=num(3, 'double'))], 'the arithmetic constant expression `%d ? 6.0 : 3.0`' % c, '6.6p8')
+    # address constants: evaluators that accept a relocation label
+    for ev in labs:
+        def lab():
+            return _Ref(_ValPlace(0))
+        v = lambda t: tree('ND_VAR', t, var=gvar(t))
+        member = lambda t: tree('ND_MEMBER', t, v('struct'), member=Obj('Member', lazy=True, label='member', fields={'offset': 4, 'ty': tys.make(t), 'is_bitfield': 0}))
+        ptr = lambda t: tys.make('ptr-' + t)
+        forms = [
+            ('&object', lambda: tree('ND_ADDR', ptr('int'), v('int'))),
+            ('array-designator', lambda: v('array-int')),
+            ('function-designator', lambda: v('func')),
+            ('&function', lambda: tree('ND_ADDR', ptr('func'), v('func'))),
+            ('&object.member', lambda: tree('ND_ADDR', ptr('int'), member('int'))),
+            ('object.array-member', lambda: member('array-int')),
+            ('&array[i]', lambda: tree('ND_ADDR', ptr('int'), tree('ND_DEREF', 'int', tree('ND_ADD', ptr('int'), v('array-int'), tree('ND_MUL', 'long', num(1, 'long'), num(4, 'long')))))),
+            ('address+integer', lambda: tree('ND_ADD', ptr('int'), tree('ND_ADDR', ptr('int'), v('int')), tree('ND_MUL', 'long', num(1, 'long'), num(4, 'long')))),
+            ('address-integer', lambda: tree('ND_SUB', ptr('int'), v('array-int'), num(4, 'long'))),
+            ('cast-of-address', lambda: tree('ND_CAST', 'long', tree('ND_ADDR', ptr('int'), v('int')))),
+            ('pointer-cast-of-address', lambda: tree('ND_CAST', ptr('char'), tree('ND_ADDR', ptr('int'), v('int')))),
+            ('conditional-address', lambda: tree('ND_COND', ptr('int'), cond=num(1), then=tree('ND_ADDR', ptr('int'), v('int')), els=tree('ND_ADDR', ptr('int'), v('int')))),
+            ('integer-constant', lambda: tree('ND_ADD', 'int', num(6), num(3))),
+        ]
+        for name, mk in forms:
+            _judge(R, it, '%s:%s:address-constant/%s' % (PU, ev, name), ev, lambda ctx, mk=mk: [mk(), lab()], 'the address constant `%s` in the initializer of an object with static storage duration' % name,
+                   '6.6p7, p9: an address constant is the address of an object of static storage duration or of a function, possibly cast or offset by an integer constant expression')
+    # predicates that recognise integer constant expressions
+    for ev in preds:
+        def want_true(key, mk, what):
+            res = _judge(R, it, key, ev, mk, what, '6.6p6')
+            for ctx, out in res or []:
+                if out[0] == 'ret' and _determined(ctx):
+                    val = out[1]
+                    val = it.settle(val) if isinstance(val, View) else val
+                    if isinstance(val, (int, bool)) and not val:
+                        R.note(key + '<-not-recognised', False, '%s() does not recognise %s as a constant expression although it is one (6.6p6): the construct that depends on it (an array bound, '
+                               'a case label) is treated as not constant and a valid program is rejected or miscompiled' % (ev, what))
+        for k in ICE_BINARY:
+            want_true('%s:%s:%s' % (PU, ev, k), lambda ctx, k=k: [tree(k, 'int', num(6), num(3))], 'the constant expression `6 %s 3`' % k[3:])
+        for k in ICE_UNARY:
+            want_true('%s:%s:%s' % (PU, ev, k), lambda ctx, k=k: [tree(k, 'int', num(6))], 'the constant expression `%s 6`' % k[3:])
+        want_true('%s:%s:ND_COND' % (PU, ev), lambda ctx: [tree('ND_COND', 'int', cond=num(1), then=num(6), els=num(3))], 'the constant expression `1 ? 6 : 3`')
+        want_true('%s:%s:ND_NUM' % (PU, ev), lambda ctx: [num(6)], 'an integer constant')
+    R.flush(rep, rule, where)
